@@ -1,5 +1,5 @@
 /-
-C18 — glyph-keyed patching of `gvar` (one table, outside the font-level loop of Model/GlyphKeyed.lean).
+C18 — glyph-keyed patching of `gvar` (the `Gvar::TAG` arm of the font-level loop in Model/GlyphKeyed.lean).
 
 Transcribes incremental-font-transfer/src/glyph_keyed.rs
   `impl GlyphDataOffsetArray for Gvar` (`offset_type`, `available_offset_types`, `offset_for`,
@@ -19,7 +19,7 @@ object cannot be packed: `pop_pack` returns None and the code answers `Serializa
 ASSUMPTION (harness keeps to it): `glyphVariationDataArrayOffset ≤ table length` (for a larger value
 `glyph_variation_data_for_range` fails even for empty ranges, the model only for non-empty ones).
 -/
-import FontVerif.Model.GlyphKeyed
+import FontVerif.Model.GlyphSplice
 namespace FontVerif.Ift
 
 structure GvarView where
@@ -61,7 +61,9 @@ def gvarArray (b : Bytes) (v : GvarView) : OffsetArray :=
     offsets := v.offsets
     data := b.drop v.arrayOffset
     missing := .fontParsingFailed .outOfBounds
-    getErr := .fontParsingFailed .outOfBounds }
+    getErr := .fontParsingFailed .outOfBounds
+    ascOk := ascending v.offsets
+    unreadable := [] }
 
 /-- `self.shared_tuples()` then the `tuples_byte_range()` bytes -/
 def gvarSharedTuples (b : Bytes) (v : GvarView) : Except RErr Bytes :=
